@@ -47,6 +47,16 @@ def run(res, props_file, pinned, tag, what):
             for v in c.get("atomicity_violations", [])[:1]:
                 found.append(("tracker", c.get("id"), "a refused block request changed the chain-tracking state: %s" % str(v)[:400],
                               {k: c[k] for k in c if not k.startswith("coq")}))
+    # on-chain signing requests (C08's harness): fingerprint and store dump around every request that ends in an error,
+    # incl. refusals that only the signing loop raises on a transaction that funds a ready channel
+    onchain_c10 = []
+    if tag == "C10":
+        ocn = lib.run_harness("onchain", "node", res.seed + 13, 120 if quick else 1500, res.tier, timeout=3000)
+        och = lib.run_harness("onchain", "handler", res.seed + 14, 80 if quick else 1000, res.tier, timeout=3000)
+        onchain_c10 = ocn["CASE"] + och["CASE"]
+        for c in onchain_c10:
+            for v in c.get("c10_violations", [])[:1]:
+                found.append(("onchain", c.get("id"), v, {k: c[k] for k in c if not k.startswith("coq") and k not in ("c10_observations",)}))
     for dom, cid, v, ops in found[:4]:
         res.violation("%s fails on the implementation: %s" % (tag, v[:300]),
                       {"domain": dom, "seed": res.seed, "case": cid, "what": v, "history": ops})
@@ -86,6 +96,8 @@ def run(res, props_file, pinned, tag, what):
         "samples": [{"domain": "nodeops", "ops": ncases[0]["ops"][:10]}],
         "onchain_cases_with_restart_comparison": len(onchain_cases),
         "tracker_histories_with_refusal_snapshots": len(tracker_cases),
+        "onchain_cases_with_refusal_snapshots": len(onchain_c10),
+        "onchain_refusals_that_left_only_an_in_memory_fee_count": sum(len(c.get("c10_observations", [])) for c in onchain_c10),
         "requests_checked": requests,
         "refused_requests_checked": refused,
         "traces_validated_against_impl": len(ncases),
